@@ -120,14 +120,31 @@ def c08(ctx):
     viols, evals, nontriv, tried = [], 0, 0, 0
     methods = [0, 1, 2, 3, 4, 5]
     samples = []
+    WP = {"wc_type": "Prop", "method": "Layer", "depth_layer": [1], "value": ["WP"]}
+    FC = {"wc_type": "Prop", "method": "Layer", "depth_layer": [1], "value": ["FC"]}
+    forced = [   # classes in which a leak between seasons is observable (DESIGN §11)
+        dict(crop="Wheat", station="tunis_climate.txt", irr_method=4, iwc=WP, soil="Loam", soil_kind="builtin", n_seasons=3, off_season=False, start_mode="at", gw=False),
+        dict(crop="Wheat", station="tunis_climate.txt", irr_method=2, iwc=FC, soil="SandyLoam", soil_kind="builtin", n_seasons=3, off_season=False, start_mode="at", gw=False),
+        dict(crop="Maize", station="champion_climate.txt", irr_method=1, iwc=FC, soil_kind="builtin", n_seasons=2, off_season=False, start_mode="before", gw=False),
+        dict(crop="MaizeGDD", station="champion_climate.txt", irr_method=0, n_seasons=2, off_season=False, start_mode="at", gw=False),
+        dict(crop="PaddyRice", station="hyderabad_climate.txt", irr_method=5, fm="bunds", soil="Paddy", soil_kind="builtin", n_seasons=2, off_season=False, start_mode="at", gw=False),
+    ]
     while evals < n and tried < 6 * n:
         tried += 1
         m = methods[tried % 6]
-        st = dict(n_seasons=int(rng.choice([2, 3])), off_season=False, irr_method=m,
-                  start_mode=str(rng.choice(["at", "before"])))
-        if rng.random() < 0.5:
-            st["crop"] = str(rng.choice(["Wheat", "Maize", "Barley", "Tomato", "Quinoa", "Sorghum", "WheatGDD", "MaizeGDD"]))
+        if tried <= len(forced):
+            st = forced[tried - 1]
+            m = st["irr_method"]
+        else:
+            st = dict(n_seasons=int(rng.choice([2, 3])), off_season=False, irr_method=m,
+                      start_mode=str(rng.choice(["at", "before"])))
+            if rng.random() < 0.5:
+                st["crop"] = str(rng.choice(["Wheat", "Maize", "Barley", "Tomato", "Quinoa", "Sorghum", "WheatGDD", "MaizeGDD"]))
         sc = S.gen_scenario(rng, 8000 + tried, st)
+        if tried <= len(forced) and m == 2:
+            sc["irr"] = {"method": 2, "IrrInterval": 7, "MaxIrr": 100.0}
+        if tried <= len(forced) and m == 4:
+            sc["irr"] = {"method": 4, "NetIrrSMT": 70.0}
         multi = run_full(sc)
         if multi.error or not multi.summary or len(multi.summary) < 2:
             continue
@@ -144,8 +161,14 @@ def c08(ctx):
             sc1["id"] = f"{sc['id']}-fresh{k}"
             fresh = run_full(sc1)
             nontriv += 1
+            if fresh.error and permitted_rejection(fresh.error):
+                continue
+            if fresh.error and "NewCond_WTinSoil" in fresh.error[1] and (sc.get("gw") or {}).get("method") == "Variable":
+                # the fresh window starts after the first water-table observation: the recorded C16/C19
+                # finding (Variable series undefined before the first in-window observation), not a C08 matter
+                continue
             if fresh.error:
-                viols.append(V("C08", "fresh-run-raises", sc, "fresh single-season run raises", season=int(k), error=fresh.error))
+                viols.append(V("C08", "fresh-run-raises-" + fresh.error[0], sc, "fresh single-season run raises", season=int(k), error=fresh.error))
                 continue
             L = h_step - p_idx + 1
             bad = None
@@ -482,6 +505,8 @@ def c12(ctx):
                 if len(viols) > 20:
                     break
         except Exception as e:  # noqa: BLE001
+            if permitted_rejection((type(e).__name__, str(e))):
+                continue
             viols.append(V("C12", "step-raises-" + type(e).__name__, sc, "stepping raises (possibly a write into a read-only parameter array)",
                            t=steps, error=(type(e).__name__, str(e)[:200]), z_cn=sc["soil"].get("kwargs", {}).get("z_cn")))
         nontriv += 1 if steps > 0 else 0
@@ -833,6 +858,9 @@ def c16_scenarios(seed, tier):
             sc["fm"] = S.random_fm(rng, fmk)
         sc["ffm"] = S.random_fm(rng) if rng.random() < 0.2 else None
         sc["gw"] = S.random_gw(rng, sc["start"], sc["end"]) if i % 4 == 1 else None
+        if i % 41 == 9:
+            d1 = (start + pd.Timedelta(days=20)).strftime("%Y-%m-%d"); d2 = (start + pd.Timedelta(days=120)).strftime("%Y-%m-%d")
+            sc["gw"] = dict(water_table="Y", method="Variable", dates=[d1, d2], values=[1.5, 2.5])
         c = i % 5
         sc["co2"] = None if c < 2 else (dict(constant=True, current=float(rng.choice([0, 300, 450, 700, 2100]))) if c < 4 else dict(constant=False))
         sc["c16_leap_day"] = leap
